@@ -104,6 +104,99 @@ def check_padding_always_applied(ctx, cls):
         ctx.check(not swallowed, 'C06.R9', 'CryptographyEngine._handle_symmetric_padding|finalize failure stands', '%s:%s CryptographyEngine._handle_symmetric_padding' % (CRYPTO, fnode.line), 'a failure of finalize() propagates',
                   'an exception of finalize() is caught and the function goes on (the text is returned as it was): malformed padding is accepted and a plain text that merely ends in pad-like bytes is truncated')
 
+
+def fold_derive_key_inputs(ctx, m):
+    """C06.R10: what reaches derive_key as key material and as derivation data, folded over small lists of base objects."""
+    from ..fold import Folder, Unfoldable, Raised, Opaque, Enum
+    from ..polmodel import enum_table, all_enum_tables
+    ctx.rule('C06.R10', 'DeriveKey hands the derivation function the inputs the request names: folded over every list of 1-3 base objects (Symmetric Key / Secret Data in every order) with and without Derivation Data in the request, key_material is the value of the FIRST object, derivation_data is the request\'s Derivation Data when present, otherwise the value of the first Secret Data object AFTER the first object, otherwise None - never the value of the keying object itself (HKDF(ikm=S, info=S) is not HKDF(ikm=S))')
+    fn = m.method('_process_derive_key')
+    site = m.site(fn, fn)
+    body = fn.body
+    calls = [c for c in walk_local(fn) if isinstance(c, ast.Call) and U(c.func).endswith('.derive_key')]
+    ctx.need(len(calls) == 1, 'unrecognised construct: _process_derive_key no longer calls <crypto engine>.derive_key once')
+    call = calls[0]
+    lists = [s_ for s_ in body if isinstance(s_, ast.Assign) and len(s_.targets) == 1 and isinstance(s_.targets[0], ast.Name) and isinstance(s_.value, (ast.List, ast.Call)) and U(s_.value) in ('[]', 'list()')]
+    loops = [s_ for s_ in body if isinstance(s_, ast.For) and U(s_.iter).endswith('.unique_identifiers')]
+    def top(node):
+        x = node
+        while getattr(x, '_parent', None) is not None and x._parent is not fn:
+            x = x._parent
+        return x
+    tcall = top(call)
+    if len(loops) != 1 or tcall not in body or body.index(loops[0]) >= body.index(tcall):
+        ctx.need(False, 'unrecognised construct: _process_derive_key no longer collects its base objects in one loop over payload.unique_identifiers before the derive_key call')
+    apps = [c.func.value.id for c in ast.walk(loops[0]) if isinstance(c, ast.Call) and isinstance(c.func, ast.Attribute) and c.func.attr == 'append' and isinstance(c.func.value, ast.Name)]
+    ctx.need(len(set(apps)) == 1, 'unrecognised construct: the base objects of _process_derive_key are not collected in one list')
+    lst = apps[0]
+    pay = params(fn)[0]
+    frag = body[body.index(loops[0]) + 1: body.index(tcall) + 1]
+    kinds = ('SYMMETRIC_KEY', 'SECRET_DATA')
+    import itertools
+
+    class Stop(Exception):
+        pass
+    n = 0
+    bad = None
+    try:
+        for k in (1, 2, 3):
+            for combo in itertools.product(kinds, repeat=k):
+                for given in (None, 'DD'):
+                    got = []
+
+                    def model(*a, **kw):
+                        got.append(kw)
+                        raise Stop()
+                    f = Folder(models={U(call.func): model}, steps=40000, methods=m.methods)
+                    f.enum_tables = {k_: list(v_) for k_, v_ in all_enum_tables(ctx.src).items()}
+                    f.enum_values = {k_: dict(v_) for k_, v_ in all_enum_tables(ctx.src).items()}
+                    objs = [{'__attrs__': ('_object_type', 'object_type', 'value', 'unique_identifier', 'cryptographic_usage_masks', 'state'), '_object_type': Enum('ObjectType', t_), 'object_type': Enum('ObjectType', t_),
+                             'value': 'V%d' % i, 'unique_identifier': i, 'cryptographic_usage_masks': [Enum('CryptographicUsageMask', 'DERIVE_KEY')], 'state': Enum('State', 'ACTIVE')} for i, t_ in enumerate(combo)]
+                    cp = {'__attrs__': ('hashing_algorithm', 'block_cipher_mode', 'padding_method', 'cryptographic_algorithm'), 'hashing_algorithm': Opaque('h'), 'block_cipher_mode': Opaque('b'), 'padding_method': Opaque('p'), 'cryptographic_algorithm': Opaque('a')}
+                    dp = {'__attrs__': ('derivation_data', 'initialization_vector', 'cryptographic_parameters', 'salt', 'iteration_count'), 'derivation_data': given, 'initialization_vector': None,
+                          'cryptographic_parameters': cp, 'salt': None, 'iteration_count': None}
+                    env = {'self': {'__attrs__': ('_logger', '_cryptography_engine'), '_logger': Opaque('logger'), '_cryptography_engine': Opaque('crypto')},
+                           pay: {'__attrs__': ('derivation_parameters', 'object_type', 'derivation_method', 'unique_identifiers', 'template_attribute'), 'derivation_parameters': dp, 'object_type': Enum('ObjectType', 'SECRET_DATA'),
+                                 'derivation_method': Opaque('method'), 'unique_identifiers': [str(i) for i in range(k)], 'template_attribute': Opaque('ta')},
+                           lst: objs, 'logging': {'__attrs__': ('DEBUG', 'INFO', 'WARNING', 'ERROR'), 'DEBUG': 10, 'INFO': 20, 'WARNING': 30, 'ERROR': 40}}
+                    f.models['self._logger.isEnabledFor'] = lambda *a: False
+                    f._globals['logging'] = env['logging']
+                    if isinstance(loops[0].target, ast.Name):
+                        env[loops[0].target.id] = objs[-1]
+                    # names bound before the fragment (the attribute dictionary of the template) are length / algorithm carriers only
+                    for s_ in body[:body.index(loops[0])]:
+                        for t_ in (s_.targets if isinstance(s_, ast.Assign) else []):
+                            if isinstance(t_, ast.Name) and t_.id not in env:
+                                if 'attr' in t_.id:
+                                    env[t_.id] = {'Cryptographic Length': {'__attrs__': ('value',), 'value': 128}, 'Cryptographic Algorithm': {'__attrs__': ('value',), 'value': Opaque('alg')}}
+                                    continue
+                                try:
+                                    env[t_.id] = f.ev(s_.value, env)
+                                except (Unfoldable, Raised):
+                                    env[t_.id] = Opaque(t_.id)
+                    try:
+                        f.run(frag, env)
+                    except Stop:
+                        pass
+                    except Raised as ex:
+                        bad = bad or '%s raised for base objects %s' % (ex.name, list(combo))
+                        continue
+                    if len(got) != 1 or 'key_material' not in got[0] or 'derivation_data' not in got[0]:
+                        return None
+                    want_dd = given if given is not None else next(('V%d' % i for i, t_ in enumerate(combo) if i >= 1 and t_ == 'SECRET_DATA'), None)
+                    n += 1
+                    if got[0]['key_material'] != 'V0' or got[0]['derivation_data'] != want_dd:
+                        bad = bad or 'base objects %s, Derivation Data %s: key_material=%r derivation_data=%r, expected key_material=\'V0\' derivation_data=%r (V<i> = value of the i-th object)' % (
+                            list(combo), 'given' if given else 'absent', got[0]['key_material'], got[0]['derivation_data'], want_dd)
+    except Unfoldable as ex:
+        ctx.count('derive_key_selection_unfoldable', 1)
+        ctx.note('C06.R10: not foldable: %s' % ex)
+        return None
+    ctx.count('derive_key_input_selections_folded', n)
+    ctx.check(bad is None, 'C06.R10', 'KmipEngine._process_derive_key|inputs handed to derive_key', site, 'key material and derivation data are the ones the request names (%d combinations folded)' % n,
+              'the inputs handed to the derivation function are not the ones the request names: %s' % bad)
+    return True
+
 def run(ctx):
     src = ctx.src
     t = src.tree(CRYPTO)
@@ -560,6 +653,8 @@ def run(ctx):
               'the crypto engine keeps state across calls (cached key material?): %s %s' % (stores, modstate))
     # ---------------- C06.R8 (lifted from C05)
     check_padding_always_applied(ctx, cls)
+    if fold_derive_key_inputs(ctx, m) is None:
+        ctx.need(False, 'unrecognised construct: the selection of the DeriveKey inputs cannot be folded (%s)' % '; '.join(x for x in ctx.info if 'C06.R10' in x)[-200:])
     ctx.rule('C06.R8', 'no handler other than the attribute and lifecycle operations writes a field of a loaded object - in particular the key material (.value) handed to the cryptographic engine is what is stored, not something a previous Get-with-wrapping left on the instance (lifted from C05.R7)')
     from ..report import Ctx as _LCtx
     from . import c05 as _lsrc
